@@ -33,6 +33,7 @@ def resolve(path):
         return None
 
 
+QUIET = [False]         # set by vmon/hostile.py while a hostile step runs: the handlers below shadow the state of MONITORED calls only
 CALLBACK_ERRORS = Counter()     # harness faults inside probe callbacks: the shard is reported as failed (inconclusive)
 
 
@@ -86,7 +87,7 @@ class Probes:
             return M.DISABLE
         self.counts[name] += 1
         h = self._start.get(code)
-        if h is not None:
+        if h is not None and not QUIET[0]:
             try:
                 h(sys._getframe(1))
             except Exception as e:      # a failing probe must never raise into the code it watches
@@ -94,7 +95,7 @@ class Probes:
 
     def _on_return(self, code, offset, retval):
         h = self._ret.get(code)
-        if h is not None:
+        if h is not None and not QUIET[0]:
             try:
                 h(sys._getframe(1), retval)
             except Exception as e:
